@@ -327,6 +327,28 @@ def random_cord(r, ctype, cid, size, origin):
             "axes": cord2_axes(A, B, C)}
 
 
+def aligned_cord(r, ctype, cid, size, x, angle):
+    """Curvilinear system in which the point x sits at azimuth `angle` (0, 90, 180, 270
+    degrees) to round-off: quadrant boundaries are where branch tests on the local x, y
+    change sides; they are ordinary, non-singular locations."""
+    while True:
+        A = x + r.uniform(-1.0, 1.0, 3) * size
+        zb = r.standard_normal(3)
+        zb /= np.linalg.norm(zb)
+        rho = (x - A) - ((x - A) @ zb) * zb
+        if np.linalg.norm(rho) > 0.2 * size:
+            break
+    e1 = rho / np.linalg.norm(rho)
+    e2 = np.cross(zb, e1)
+    ang = np.deg2rad(angle)
+    # local x axis such that the point is at azimuth `angle`: x_axis = R(-angle) e1
+    xax = np.cos(ang) * e1 - np.sin(ang) * e2
+    B = A + zb * float(r.uniform(0.5, 2.0))
+    C = A + xax * float(r.uniform(0.5, 2.0)) + zb * float(r.uniform(-0.5, 0.5))
+    return {"cid": int(cid), "type": int(ctype), "A": A, "B": B, "C": C,
+            "axes": cord2_axes(A, B, C)}
+
+
 def well_placed(cord, x, size):
     """Grid not (nearly) on the polar axis / origin of a curvilinear system."""
     if cord is None or cord["type"] == 1:
